@@ -189,7 +189,7 @@ theorem recordNewState_keepsEx (cx : Ctx) (t : Nat) (sf : Rec) (rv : Status) (ou
 def ssGuard (cx : Ctx) (t : Nat) (sf : Rec) (w : World) : Rec × World :=
     if sf.isGenerated && readStamp w t != .missing && (sf.isOverride || detectOverride (sf.stamp.getD .missing) (readStamp w t)) then
       let w := ev w (.warnOverride t)
-      let sf := if !sf.isOverride then setOverride w t sf cx.runid else sf
+      let sf := setOverride w t sf cx.runid
       (sf, setRec w t sf)
     else (sf, w)
 
@@ -239,8 +239,7 @@ theorem ssGuard_spec (cx : Ctx) (t : Nat) (sf0 : Rec) (w : World)
     obtain ⟨⟨_, hns⟩, _⟩ := hc
     have hex : existsF w t = true := existsF_of_readStamp_ne hns
     dsimp only
-    have hov : (if (!sf0.isOverride) = true then setOverride (ev w (.warnOverride t)) t sf0 cx.runid else sf0).isOverride = true := by
-      cases ho : sf0.isOverride <;> simp [setOverride, ho]
+    have hov : (setOverride (ev w (.warnOverride t)) t sf0 cx.runid).isOverride = true := rfl
     constructor
     · refine (SameOwn.ev w _).keeps.trans (KeepsUser.setRec _ _ _ (fun _ => ⟨hex, ?_⟩))
       right; left
@@ -249,7 +248,7 @@ theorem ssGuard_spec (cx : Ctx) (t : Nat) (sf0 : Rec) (w : World)
     · intro hg
       exfalso
       have hex' : existsF (setRec (ev w (.warnOverride t)) t
-          (if (!sf0.isOverride) = true then setOverride (ev w (.warnOverride t)) t sf0 cx.runid else sf0)) t = true := hex
+          (setOverride (ev w (.warnOverride t)) t sf0 cx.runid)) t = true := hex
       rw [hex', hov] at hg
       simp at hg
   · rename_i hc
